@@ -65,6 +65,23 @@ func sizeUse(v ssa.Value, depth int) string {
 			if x.Low == v || x.High == v || x.Max == v {
 				return "a slice bound"
 			}
+		case *ssa.Phi:
+			// a repeat count: carried around a loop and tested against zero
+			if u := sizeUse(x, depth+1); u != "" {
+				return u
+			}
+		case *ssa.BinOp:
+			if (x.Op == token.GTR || x.Op == token.NEQ) && x.X == v && countsDown(v) {
+				if c, ok := x.Y.(*ssa.Const); ok && c.Value != nil && c.Value.String() == "0" {
+					if x.Referrers() != nil {
+						for _, rr := range *x.Referrers() {
+							if _, isIf := rr.(*ssa.If); isIf {
+								return "a repeat count"
+							}
+						}
+					}
+				}
+			}
 		case *ssa.Call:
 			if callee := x.Call.StaticCallee(); callee != nil {
 				switch callee.Name() {
@@ -75,4 +92,21 @@ func sizeUse(v ssa.Value, depth int) string {
 		}
 	}
 	return ""
+}
+
+// countsDown: v is a loop-carried value that is decremented by a constant
+// around the loop (the shape of a repeat count).
+func countsDown(v ssa.Value) bool {
+	ph, ok := v.(*ssa.Phi)
+	if !ok {
+		return false
+	}
+	for _, e := range ph.Edges {
+		if sub, ok := e.(*ssa.BinOp); ok && sub.Op == token.SUB && sub.X == ssa.Value(ph) {
+			if _, isC := sub.Y.(*ssa.Const); isC {
+				return true
+			}
+		}
+	}
+	return false
 }
